@@ -229,9 +229,9 @@ let run_as (suite : string) (attack : string) (cfgs : string) : string =
   let certs = match attack with
     | "sigkey" -> [(c_sig, k_other); (c_enc, k_enc)]
     | "enckey" -> [(c_sig, k_sig); (c_enc, k_other)]
-    | "untrusted" -> [(c_usig, k_usig); (c_uenc, k_uenc)]
-    | "untrusted_sig" -> [(c_usig, k_usig); (c_enc, k_enc)]
-    | "untrusted_enc" -> [(c_sig, k_sig); (c_uenc, k_uenc)]
+    | "untrusted" | "mimic_root" -> [(c_usig, k_usig); (c_uenc, k_uenc)]      (* mimic_*: not issued by the CA, whatever names they copy *)
+    | "untrusted_sig" | "mimic_root_sig" -> [(c_usig, k_usig); (c_enc, k_enc)]
+    | "untrusted_enc" | "mimic_root_enc" -> [(c_sig, k_sig); (c_uenc, k_uenc)]
     | "rsa" -> [(c_rsa, k_rsa); (c_rsa, k_rsa)]
     | "rsa_enc" -> [(c_sig, k_sig); (c_rsa, k_rsa)]
     | "rsa_sig" -> [(c_rsa, k_rsa); (c_enc, k_enc)]
@@ -258,15 +258,34 @@ let run_as (suite : string) (attack : string) (cfgs : string) : string =
   let ((_, cstat), _) = pair_run_t id_t ts c s in
   show_pstat cstat
 
+(* replace every occurrence of the term o by n *)
+let rec subst_term (o : term) (nw : term) (t : term) : term =
+  if term_eqb t o then nw else
+  match t with
+  | TPair (a, b) -> TPair (subst_term o nw a, subst_term o nw b)
+  | TEnc (a, b) -> TEnc (subst_term o nw a, subst_term o nw b)
+  | TSig (k, p) -> TSig (k, subst_term o nw p)
+  | TPRF (a, b, c) -> TPRF (subst_term o nw a, subst_term o nw b, subst_term o nw c)
+  | THash a -> THash (subst_term o nw a)
+  | _ -> t
+
 (* malicious client against the server model *)
 let run_ac (suite : string) (attack : string) (auth : string) : string =
   let cert = match attack with
     | "honest_nocert" | "nocertmsg" -> None
-    | "untrusted_cert" -> Some (c_uauth, k_uauth)
+    | "untrusted_cert" | "mimic_root_cert" -> Some (c_uauth, k_uauth)   (* not issued by the client CA, whatever names it copies *)
+    | "chain_key2" -> Some (c_auth, k_uauth)                            (* the leaf of someone else, the attacker's own key *)
     | _ -> Some (c_auth, k_auth) in
   let client_trusted = match attack with "expired_cert" -> [] | _ -> [c_auth] in
+  (* chain_*: the Certificate message carries [leaf; attacker's certificate]; what the client signs and MACs afterwards
+     covers the message as sent *)
+  let one = enc_hmsg (MCertificate [c_auth]) and two = enc_hmsg (MCertificate [c_auth; c_uauth]) in
+  let chain = (attack = "chain_honest" || attack = "chain_key2") in
   let tc (i : input) : input list =
     match attack, i with
+    | _, IHs (MCertificate [c]) when chain && term_eqb c c_auth -> [IHs (MCertificate [c_auth; c_uauth])]
+    | _, IHs (MCertificateVerify (a, sg)) when chain -> [IHs (MCertificateVerify (a, subst_term one two sg))]
+    | _, IHs (MFinished vd) when chain -> [IHs (MFinished (subst_term one two vd))]
     | "nocertmsg", IHs (MCertificate _) -> []
     | "cv_omit", IHs (MCertificateVerify _) -> []
     | "cv_key2", IHs (MCertificateVerify (a, TSig (_, p))) -> [IHs (MCertificateVerify (a, TSig (k_other, p)))]
